@@ -4,14 +4,33 @@ import BreezyVerif.Model.C27
 namespace BreezyVerif.C27
 open BreezyVerif.C26
 
-/-- `crash n cfgs held events`: after every prefix, the classification of the lock on disk
+/-- the events of the C26 driver plus `l<i><T|P>`: lost reply -/
+def parseEv27 (s : String) : Option Ev27 :=
+  match s.toList with
+  | 'l' :: rest =>
+    match rest.reverse with
+    | k :: ds => do
+        let k ← (if k == 'T' then some FaultKind.T else if k == 'P' then some FaultKind.P else none)
+        let i ← (String.ofList ds.reverse).toNat?
+        pure (.lost i k)
+    | [] => none
+  | _ => (parseEv s).map .base
+
+def traceWith27 (fx : Bool) (f : Sys → String) (s : Sys) : List Ev27 → List String
+  | [] => [f s]
+  | e :: es => f s :: traceWith27 fx f (step27 fx s e) es
+
+/-- `crash <T|F variant> n cfgs held events`: after every prefix, the classification of the lock on disk
 followed by the rendering of the whole state | `rec held` -/
 def handle : List String → String
-  | ["crash", n, cfgs, held, evs] =>
-    match n.toNat?, (splitList cfgs).mapM parseCfg, parseHeld held, (splitList evs).mapM parseEv with
+  | ["crash", fx, n, cfgs, held, evs] =>
+    match parseBool fx with
+    | none => "bad-op"
+    | some fx =>
+    match n.toNat?, (splitList cfgs).mapM parseCfg, parseHeld held, (splitList evs).mapM parseEv27 with
     | some n, some cs, some h, some evs =>
       if cs.length = n then
-        "|".intercalate (traceWith (fun s => (classify s.held).show ++ " " ++ s.show n) (Sys.init (cfgFun cs) h) evs)
+        "|".intercalate (traceWith27 fx (fun s => (classify s.held).show ++ " " ++ s.show n) (Sys.init (cfgFun cs) h) evs)
       else "bad-op"
     | _, _, _, _ => "bad-op"
   | ["rec", held] =>
